@@ -1,22 +1,48 @@
-"""C20 translator: AST of src/psd_tools/**/*.py -> the global-state footprint table.
+"""C20 translator: AST of src/psd_tools/**/*.py -> the global-state footprint tables.
 
-A *cell* is a piece of process-wide mutable state:
+Table 1, `cells`.  A *cell* is a piece of process-wide state owned by psd_tools:
   * a module-level name bound to a mutable object (dict/list/set literal or
     comprehension, or a call to set/dict/list/OrderedDict/defaultdict/Counter/
     deque/bytearray/array, or a registry from `new_registry`),
   * a class-level attribute bound to such an object,
-  * a class attribute that some function assigns through `cls.X = …` / `Class.X = …`,
-  * a memoising decorator (`functools.lru_cache` / `cache`) — its table is a cell.
+  * ANY module-level or class-level name (whatever it is bound to: a counter, a flag, a
+    cache object, a logger ...) that code inside a function or method anywhere under
+    src/psd_tools assigns, augments, deletes or mutates:
+      - `global X` followed by `X = ...` / `X += ...` / `del X`,
+      - `module.X = ...` / `setattr(module, "X", ...)` through an imported psd_tools module,
+      - `cls.X = ...` / `Class.X = ...` / `type(self).X = ...` / `self.__class__.X = ...`,
+      - `X[k] = ...`, `X.attr = ...`, `X.append(...)` (any mutator) on a module-level name X
+        that is not rebound locally in that function,
+  * a memoising decorator (`functools.lru_cache` / `cache`) - its table is a cell.
 For every cell the walk records whether a *function body* (code that runs after
 import) mutates it (`writtenAtRuntime`) and whether a function body reads it
 (`readObservably`). Import-time statements (module top level, class bodies,
 decorators) are registration and do not count as run-time writes.
 Also recorded: every `attr.ib(default=<mutable expression>)` (a default object
 shared by all instances).
+
+Table 2, `switches`.  Process-wide state owned by SOMEBODY ELSE (the standard library,
+attrs, numpy, PIL ...) that psd_tools code flips:
+  * a call `ext.path.f(...)` whose root is an imported non-psd_tools module (or a name
+    imported from one) and whose last component looks like a switch (`set*`, `disable*`,
+    `enable*`, `register*`, `simplefilter`, `filterwarnings`, `seterr`, `seed`, `basicConfig`,
+    `setlocale`, `chdir`, `putenv` ... see SWITCH_RE / SWITCH_NAMES),
+  * an assignment / augmented assignment / deletion whose target is rooted in such a module
+    (`os.environ[k] = v`, `Image.MAX_IMAGE_PIXELS = None`, `decimal.getcontext().prec = 9`,
+    monkey-patching `np.something = f`), `setattr(ext, ...)`,
+  * a mutator call on a container of such a module (`sys.path.append`, `os.environ.update`,
+    `warnings.filters.insert`).
+Each site records whether it runs after import (`atRuntime`: inside a function body) and
+whether it is *scoped* (the `with` item of a restoring context manager such as
+`np.errstate(...)`, `warnings.catch_warnings()`, `decimal.localcontext()`,
+`attr.validators.disabled()`, or a `warnings.*` call lexically inside
+`with warnings.catch_warnings():`): a scoped site restores the switch before the operation
+returns, so it is not a write in the before/after semantics of Model/Globals.lean.
 """
 from __future__ import annotations
 
 import ast
+import re
 from pathlib import Path
 
 MUT_CALLS = {"set", "dict", "list", "OrderedDict", "defaultdict", "Counter", "deque", "bytearray", "array"}
@@ -24,8 +50,21 @@ MUTATORS = {
     "add", "append", "update", "pop", "popitem", "clear", "setdefault", "extend", "remove", "discard",
     "insert", "sort", "reverse", "move_to_end", "appendleft", "popleft", "__setitem__", "__delitem__",
     "difference_update", "intersection_update", "symmetric_difference_update",
+    # objects that are not containers but carry state (caches); the level / handlers of psd_tools' OWN loggers are
+    # deliberately not cells: they steer log output only, which is not part of a document's observable behaviour
+    "cache_clear", "__setattr__",
 }
 MEMO = {"lru_cache", "cache", "cached"}
+
+# last component of a call into a foreign module that flips process-wide behaviour
+SWITCH_RE = re.compile(
+    r"^(set_[a-z0-9_]+|set[a-z0-9]+|seterr[a-z]*|disable[a-z_]*|enable[a-z_]*|register[a-z_]*|unregister[a-z_]*|"
+    r"simplefilter|filterwarnings|resetwarnings|basicConfig|captureWarnings|seed|putenv|unsetenv|chdir|umask|"
+    r"install[a-z_]*|use|addaudithook|add_type|errstate|catch_warnings|localcontext|disabled|printoptions|"
+    r"set|cache_clear|_clear_cache)$"
+)
+NOT_SWITCH = {"setdiff1d", "setxor1d", "setdefaultencoding", "set_trace", "setup", "settings"}
+SCOPED_MANAGERS = {"errstate", "catch_warnings", "localcontext", "disabled", "printoptions", "local_context"}
 
 
 def call_name(node):
@@ -66,20 +105,116 @@ def modname(root: Path, f: Path) -> str:
     return ".".join(["psd_tools", *parts])
 
 
+def _abs_module(mod: str, is_pkg: bool, node: ast.ImportFrom) -> str:
+    """absolute dotted name of the module an ImportFrom refers to"""
+    if not node.level:
+        return node.module or ""
+    parts = mod.split(".")
+    if not is_pkg:
+        parts = parts[:-1]
+    if node.level > 1:
+        parts = parts[: len(parts) - (node.level - 1)]
+    return ".".join(parts + ([node.module] if node.module else []))
+
+
+def _local_names(fn) -> set:
+    """names bound locally in a function (parameters, plain assignments, loop / with / except targets,
+    comprehension variables, local imports, nested defs) minus the ones it declares `global`."""
+    out, glob = set(), set()
+    a = fn.args
+    for x in a.posonlyargs + a.args + a.kwonlyargs + ([a.vararg] if a.vararg else []) + ([a.kwarg] if a.kwarg else []):
+        out.add(x.arg)
+
+    def targets(t):
+        if isinstance(t, ast.Name):
+            out.add(t.id)
+        elif isinstance(t, (ast.Tuple, ast.List)):
+            for e in t.elts:
+                targets(e)
+        elif isinstance(t, ast.Starred):
+            targets(t.value)
+
+    def walk(n):
+        for c in ast.iter_child_nodes(n):
+            if isinstance(c, (ast.FunctionDef, ast.AsyncFunctionDef, ast.ClassDef)):
+                out.add(c.name)
+                continue                      # its own scope
+            if isinstance(c, ast.Lambda):
+                continue
+            if isinstance(c, ast.Global):
+                glob.update(c.names)
+            elif isinstance(c, ast.Assign):
+                for t in c.targets:
+                    targets(t)
+            elif isinstance(c, (ast.AugAssign, ast.AnnAssign)):
+                targets(c.target)
+            elif isinstance(c, (ast.For, ast.AsyncFor)):
+                targets(c.target)
+            elif isinstance(c, (ast.With, ast.AsyncWith)):
+                for it in c.items:
+                    if it.optional_vars is not None:
+                        targets(it.optional_vars)
+            elif isinstance(c, ast.ExceptHandler) and c.name:
+                out.add(c.name)
+            elif isinstance(c, (ast.Import, ast.ImportFrom)):
+                for al in c.names:
+                    out.add((al.asname or al.name).split(".")[0])
+            elif isinstance(c, ast.NamedExpr):
+                targets(c.target)
+            elif isinstance(c, ast.comprehension):
+                targets(c.target)
+            walk(c)
+
+    walk(fn)
+    return (out - glob), glob
+
+
+def _chain(expr):
+    """(root Name id | None, [attribute / '[]' / '()' components]) of an access path"""
+    parts = []
+    while True:
+        if isinstance(expr, ast.Attribute):
+            parts.append(expr.attr)
+            expr = expr.value
+        elif isinstance(expr, ast.Subscript):
+            parts.append("[]")
+            expr = expr.value
+        elif isinstance(expr, ast.Call):
+            parts.append("()")
+            expr = expr.func
+        elif isinstance(expr, ast.Name):
+            return expr.id, list(reversed(parts))
+        else:
+            return None, list(reversed(parts))
+
+
 def extract(src_root: Path):
-    """Returns (cells: list[Cell], attr_defaults: list[dict])."""
+    """Returns (cells: list[Cell], attr_defaults: list[dict]); `extract_all` also returns the switch sites."""
+    cells, defaults, _ = extract_all(src_root)
+    return cells, defaults
+
+
+def extract_all(src_root: Path):
     files = sorted(src_root.rglob("*.py"))
     trees = {}
     for f in files:
         trees[f] = ast.parse(f.read_text())
+    mods = {f: modname(src_root, f) for f in files}
+    all_mods = set(mods.values())
     cells: dict[str, Cell] = {}
     # registries: module -> {register function name: cell key}
     reg_funcs: dict[str, dict[str, str]] = {}
     attr_defaults = []
+    # every name assigned at module level / class level (whatever its value): candidate cells, emitted only
+    # when some function body writes them
+    top_names: dict[str, dict[str, int]] = {}
+    class_attrs: dict[str, dict[str, dict[str, int]]] = {}
 
     # ---- pass 1: declarations
     for f, tree in trees.items():
-        mod = modname(src_root, f)
+        mod = mods[f]
+        top_names[mod] = {}
+        class_attrs[mod] = {}
 
         def declare(targets, value, prefix, line, kind):
             if isinstance(value, ast.Call) and call_name(value) == "new_registry":
@@ -96,6 +231,27 @@ def extract(src_root: Path):
                     c = Cell(mod, prefix + t.id, kind, line)
                     cells[c.key] = c
 
+        def names_of(t, into, line):
+            if isinstance(t, ast.Name):
+                into.setdefault(t.id, line)
+            elif isinstance(t, (ast.Tuple, ast.List)):
+                for e in t.elts:
+                    names_of(e, into, line)
+
+        def top_level(body, into):
+            for node in body:
+                if isinstance(node, ast.Assign):
+                    for t in node.targets:
+                        names_of(t, into, node.lineno)
+                elif isinstance(node, (ast.AnnAssign, ast.AugAssign)):
+                    names_of(node.target, into, node.lineno)
+                elif isinstance(node, (ast.If, ast.Try, ast.With, ast.For, ast.While)):
+                    for fld in ("body", "orelse", "finalbody"):
+                        top_level(getattr(node, fld, []) or [], into)
+                    for h in getattr(node, "handlers", []) or []:
+                        top_level(h.body, into)
+
+        top_level(tree.body, top_names[mod])
         for node in tree.body:
             if isinstance(node, ast.Assign):
                 declare(node.targets, node.value, "", node.lineno, "moduleMutable")
@@ -103,6 +259,7 @@ def extract(src_root: Path):
                 declare([node.target], node.value, "", node.lineno, "moduleMutable")
         for node in ast.walk(tree):
             if isinstance(node, ast.ClassDef):
+                top_level(node.body, class_attrs[mod].setdefault(node.name, {}))
                 for st in node.body:
                     if isinstance(st, ast.Assign):
                         declare(st.targets, st.value, node.name + ".", st.lineno, "classMutable")
@@ -122,195 +279,470 @@ def extract(src_root: Path):
                         c.readers.append(f"{mod}.{node.name}")
                         cells[c.key] = c
 
-    # names of classes per module (for Class.X access) and import maps
+    # names of classes per module (for Class.X access)
     class_names = {}
     for f, tree in trees.items():
-        mod = modname(src_root, f)
-        class_names[mod] = {n.name for n in ast.walk(tree) if isinstance(n, ast.ClassDef)}
+        class_names[mods[f]] = {n.name for n in ast.walk(tree) if isinstance(n, ast.ClassDef)}
+    any_class = set().union(*class_names.values()) if class_names else set()
 
-    # ---- pass 2: uses inside function bodies
+    # ---- import maps (whole module, function-level imports included)
+    imports = {}
     for f, tree in trees.items():
-        mod = modname(src_root, f)
-        # name -> cell key visible in this module
-        visible: dict[str, str] = {}
-        for k, c in cells.items():
-            if c.module == mod and "." not in c.name:
-                visible[c.name] = k
-        modalias: dict[str, str] = {}
-        for node in tree.body:
-            if isinstance(node, ast.ImportFrom) and node.module:
+        mod = mods[f]
+        is_pkg = f.name == "__init__.py"
+        own_mod: dict[str, str] = {}      # alias -> psd_tools module
+        own_name: dict[str, tuple] = {}   # alias -> (psd_tools module, name)
+        ext: dict[str, str] = {}          # alias -> dotted name in a foreign module
+        for node in ast.walk(tree):
+            if isinstance(node, ast.Import):
                 for a in node.names:
-                    k = f"{node.module}:{a.name}"
-                    if k in cells:
-                        visible[a.asname or a.name] = k
-                    if f"{node.module}.{a.name}" in class_names or any(
-                        m == f"{node.module}.{a.name}" for m in class_names
-                    ):
-                        modalias[a.asname or a.name] = f"{node.module}.{a.name}"
-            elif isinstance(node, ast.Import):
+                    if a.name == "psd_tools" or a.name.startswith("psd_tools."):
+                        if a.asname:
+                            own_mod[a.asname] = a.name
+                        else:
+                            own_mod["psd_tools"] = "psd_tools"
+                    else:
+                        if a.asname:
+                            ext[a.asname] = a.name
+                        else:
+                            ext[a.name.split(".")[0]] = a.name.split(".")[0]
+            elif isinstance(node, ast.ImportFrom):
+                base = _abs_module(mod, is_pkg, node)
+                own = base == "psd_tools" or base.startswith("psd_tools.")
                 for a in node.names:
-                    modalias[a.asname or a.name.split(".")[0]] = a.name
+                    alias = a.asname or a.name
+                    if own:
+                        if f"{base}.{a.name}" in all_mods:
+                            own_mod[alias] = f"{base}.{a.name}"
+                        else:
+                            own_name[alias] = (base, a.name)
+                    elif base != "__future__":
+                        ext[alias] = f"{base}.{a.name}"
+        imports[mod] = (own_mod, own_name, ext)
 
-        def resolve(expr):
-            """cell key for an expression naming a cell, or None."""
-            if isinstance(expr, ast.Name):
-                return visible.get(expr.id)
-            if isinstance(expr, ast.Attribute):
-                v = expr.value
-                if isinstance(v, ast.Name):
-                    if v.id in modalias:  # module.NAME
-                        k = f"{modalias[v.id]}:{expr.attr}"
-                        if k in cells:
-                            return k
-                    # Class.NAME / cls.NAME / self.NAME for class-level cells (any class of any module with that attr)
-                    cands = [k for k, c in cells.items() if c.kind == "classMutable" and c.name.split(".")[-1] == expr.attr]
-                    if v.id in ("cls", "self") or any(v.id in class_names[m] for m in class_names):
-                        if cands:
-                            same = [k for k in cands if cells[k].module == mod]
-                            return (same or cands)[0]
+    def own_module_of(mod, root, parts):
+        """(psd_tools module, remaining parts) when root.parts starts with a path to a psd_tools module"""
+        own_mod = imports[mod][0]
+        if root not in own_mod:
             return None
+        cur = own_mod[root]
+        rest = list(parts)
+        while rest and f"{cur}.{rest[0]}" in all_mods:
+            cur = f"{cur}.{rest.pop(0)}"
+        return cur, rest
 
-        class V(ast.NodeVisitor):
+    def ensure(mod_of_cell, name, kind, line):
+        k = f"{mod_of_cell}:{name}"
+        if k not in cells:
+            cells[k] = Cell(mod_of_cell, name, kind, line)
+        return k
+
+    switches = []
+
+    # ---- pass 2: writes inside function bodies (declares the cells that only exist because they are written)
+    #      and foreign switch sites (at import time and at run time)
+    for f, tree in trees.items():
+        mod = mods[f]
+        own_mod, own_name, ext = imports[mod]
+
+        class W(ast.NodeVisitor):
             def __init__(self):
-                self.stack = []
+                self.stack = []          # function names
+                self.scopes = []         # (locals, globals) per function
+                self.classes = []        # enclosing class names
+                self.withs = []          # dotted names of the context managers we are lexically inside
 
+            # -- scope bookkeeping
             def visit_FunctionDef(self, node):
                 if node.name == "new_registry":
                     return
+                for d in node.decorator_list:        # decorators and defaults run where the def statement runs
+                    self.visit(d)
+                for d in node.args.defaults + [x for x in node.args.kw_defaults if x is not None]:
+                    self.visit(d)
                 self.stack.append(node.name)
+                self.scopes.append(_local_names(node))
                 for st in node.body:
                     self.visit(st)
+                self.scopes.pop()
                 self.stack.pop()
-                # decorators and defaults run at import time: not visited as run-time code
 
             visit_AsyncFunctionDef = visit_FunctionDef
 
             def visit_Lambda(self, node):
                 self.stack.append("<lambda>")
+                a = node.args
+                loc = {x.arg for x in a.posonlyargs + a.args + a.kwonlyargs}
+                self.scopes.append((loc, set()))
+                self.visit(node.body)
+                self.scopes.pop()
+                self.stack.pop()
+
+            def visit_ClassDef(self, node):
+                self.classes.append(node.name)
                 self.generic_visit(node)
+                self.classes.pop()
+
+            def where(self):
+                return f"{mod}.{'.'.join(self.stack)}" if self.stack else f"{mod}.<import>"
+
+            def is_local(self, name):
+                # a name bound in ANY enclosing function scope hides the module-level one
+                return any(name in loc for loc, _ in self.scopes)
+
+            def is_global_decl(self, name):
+                return bool(self.scopes) and name in self.scopes[-1][1]
+
+            # -- classification of one access path
+            def foreign(self, root, parts):
+                """dotted name in a foreign module, or None"""
+                if root is None or self.is_local(root) or root not in ext:
+                    return None
+                return ".".join([ext[root]] + [p for p in parts])
+
+            def site(self, node, dotted, how, scoped=False):
+                scoped = scoped or any(w.split(".")[0] == dotted.split(".")[0] and w.endswith("catch_warnings")
+                                       for w in self.withs)
+                switches.append({"module": mod, "line": node.lineno, "callee": dotted, "how": how,
+                                 "where": self.where(), "atRuntime": bool(self.stack), "scoped": bool(scoped)})
+
+            def write_path(self, node, target, how):
+                """`target` is stored to / deleted / mutated in place"""
+                root, parts = _chain(target)
+                if root is None:
+                    return
+                fd = self.foreign(root, parts)
+                if fd is not None and parts:
+                    self.site(node, fd.replace(".()", "()").replace(".[]", "[]"), how)
+                    return
+                if not self.stack:
+                    return               # import-time code of psd_tools itself is registration
+                # psd_tools module attribute: module.X = ...
+                om = own_module_of(mod, root, parts) if not self.is_local(root) else None
+                if om is not None:
+                    m2, rest = om
+                    if rest and rest[0] not in ("[]", "()"):
+                        kind = "globalRebound" if len(rest) == 1 and how == "assign" else "moduleMutable"
+                        if rest[0] in class_names.get(m2, ()) and len(rest) >= 2 and rest[1] not in ("[]", "()"):
+                            k = ensure(m2, f"{rest[0]}.{rest[1]}", "classAttrAssigned", node.lineno)
+                        else:
+                            k = ensure(m2, rest[0], kind, node.lineno)
+                        cells[k].writers.append(self.where())
+                    return
+                # class attribute: cls.X / Class.X / type(self).X / self.__class__.X
+                owner = None
+                if root == "cls" and parts and parts[0] not in ("[]", "()"):
+                    owner, attr, deeper = (self.classes[-1] if self.classes else "<cls>"), parts[0], parts[1:]
+                elif root in any_class and not self.is_local(root) and parts and parts[0] not in ("[]", "()"):
+                    owner, attr, deeper = root, parts[0], parts[1:]
+                elif root in own_name and own_name[root][1] in any_class and parts and parts[0] not in ("[]", "()"):
+                    owner, attr, deeper = own_name[root][1], parts[0], parts[1:]
+                elif root == "self" and len(parts) >= 2 and parts[0] == "__class__" and parts[1] not in ("[]", "()"):
+                    owner, attr, deeper = (self.classes[-1] if self.classes else "<cls>"), parts[1], parts[2:]
+                elif root == "type" and len(parts) >= 2 and parts[0] == "()" and parts[1] not in ("[]", "()"):
+                    owner, attr, deeper = (self.classes[-1] if self.classes else "<cls>"), parts[1], parts[2:]
+                elif root == "self" and parts and parts[0] not in ("[]", "()", "__class__") and \
+                        (len(parts) > 1 or how != "assign"):
+                    # in-place mutation THROUGH an instance of an object that lives on the class
+                    # (`self.X[k] = v`, `self.X.append(v)`); `self.X = v` makes an instance attribute instead
+                    a0 = parts[0]
+                    cands = [k for k, c in cells.items() if c.kind == "classMutable" and c.name.split(".")[-1] == a0]
+                    if cands:
+                        same = [k for k in cands if cells[k].module == mod]
+                        cells[(same or cands)[0]].writers.append(self.where())
+                    return
+                if owner is not None:
+                    # an existing class-level mutable of that name (any class of this module first)
+                    cands = [k for k, c in cells.items() if c.kind == "classMutable" and c.name.split(".")[-1] == attr]
+                    same = [k for k in cands if cells[k].module == mod and cells[k].name == f"{owner}.{attr}"] or \
+                           [k for k in cands if cells[k].module == mod]
+                    if (same or cands) and (deeper or how != "assign"):
+                        k = (same or cands)[0]
+                    else:
+                        owner_mod = mod
+                        if root in own_name:
+                            owner_mod = own_name[root][0]
+                        k = ensure(owner_mod, f"{owner}.{attr}", "classAttrAssigned", node.lineno)
+                    cells[k].writers.append(self.where())
+                    return
+                # module-level name of this module (or imported from another psd_tools module)
+                if self.is_local(root):
+                    return
+                if not parts and how != "mutate":
+                    # plain rebinding needs `global`
+                    if self.is_global_decl(root):
+                        k = ensure(mod, root, "globalRebound", node.lineno)
+                        cells[k].writers.append(self.where())
+                    return
+                if root in top_names[mod]:
+                    k = f"{mod}:{root}"
+                    if k not in cells:
+                        k = ensure(mod, root, "moduleMutable", top_names[mod][root])
+                    cells[k].writers.append(self.where())
+                elif root in own_name:
+                    m2, n2 = own_name[root]
+                    if n2 in top_names.get(m2, {}):
+                        k = ensure(m2, n2, "moduleMutable", top_names[m2][n2])
+                        cells[k].writers.append(self.where())
+
+            # -- statements
+            def _targets(self, node, t, how="assign"):
+                if isinstance(t, (ast.Tuple, ast.List)):
+                    for e in t.elts:
+                        self._targets(node, e, how)
+                elif isinstance(t, ast.Starred):
+                    self._targets(node, t.value, how)
+                else:
+                    self.write_path(node, t, how)
+
+            def visit_Assign(self, node):
+                for t in node.targets:
+                    self._targets(node, t)
+                self.generic_visit(node)
+
+            def visit_AnnAssign(self, node):
+                if node.value is not None:
+                    self._targets(node, node.target)
+                self.generic_visit(node)
+
+            def visit_AugAssign(self, node):
+                self._targets(node, node.target, "augment")
+                self.generic_visit(node)
+
+            def visit_Delete(self, node):
+                for t in node.targets:
+                    self._targets(node, t, "delete")
+                self.generic_visit(node)
+
+            def visit_With(self, node):
+                pushed = 0
+                for it in node.items:
+                    ce = it.context_expr
+                    if isinstance(ce, ast.Call):
+                        root, parts = _chain(ce.func)
+                        fd = self.foreign(root, parts)
+                        if fd is not None and fd.split(".")[-1] in SCOPED_MANAGERS:
+                            self.site(ce, fd, "with", scoped=True)
+                            self.withs.append(fd)
+                            pushed += 1
+                            for a in list(ce.args) + [k.value for k in ce.keywords]:
+                                self.visit(a)
+                            if it.optional_vars is not None:
+                                self.visit(it.optional_vars)
+                            continue
+                    self.visit(it)
+                for st in node.body:
+                    self.visit(st)
+                for _ in range(pushed):
+                    self.withs.pop()
+
+            visit_AsyncWith = visit_With
+
+            def visit_Call(self, node):
+                fn = node.func
+                root, parts = _chain(fn)
+                fd = self.foreign(root, parts)
+                if fd is not None and parts:
+                    last = parts[-1]
+                    if last in MUTATORS and len(parts) >= 2 and "()" not in parts:
+                        self.site(node, fd.replace(".[]", "[]"), "mutate")
+                    elif SWITCH_RE.match(last) and last not in NOT_SWITCH and "()" not in parts[:-1] or \
+                            (last in ("setattr", "delattr")):
+                        self.site(node, fd.replace(".()", "()").replace(".[]", "[]"), "call")
+                elif isinstance(fn, ast.Name) and fn.id in ("setattr", "delattr") and node.args:
+                    # setattr(<module or class>, "X", v)
+                    tgt = node.args[0]
+                    name = node.args[1].value if len(node.args) > 1 and isinstance(node.args[1], ast.Constant) else "<dynamic>"
+                    r2, p2 = _chain(tgt)
+                    fd2 = self.foreign(r2, p2)
+                    if fd2 is not None:
+                        self.site(node, f"{fd2}.{name}", "setattr")
+                    elif self.stack:
+                        fake = ast.Attribute(value=tgt, attr=str(name), ctx=ast.Store())
+                        ast.copy_location(fake, node)
+                        if not (isinstance(tgt, ast.Name) and (tgt.id == "self" or self.is_local(tgt.id)) and tgt.id != "cls"):
+                            self.write_path(node, fake, "assign")
+                elif fd is not None and not parts and SWITCH_RE.match(ext[root].split(".")[-1]) and \
+                        ext[root].split(".")[-1] not in NOT_SWITCH:
+                    # `from numpy import seterr; seterr(...)`
+                    self.site(node, ext[root], "call")
+                if self.stack and isinstance(fn, ast.Attribute) and fn.attr in MUTATORS and fd is None:
+                    self.write_path(node, fn.value, "mutate")
+                if self.stack and isinstance(fn, ast.Name) and fn.id in reg_funcs.get(mod, {}) and not self.is_local(fn.id):
+                    cells[reg_funcs[mod][fn.id]].writers.append(self.where())
+                self.generic_visit(node)
+
+        W().visit(tree)
+
+    # a mutator call on a plain module-level name that was never declared mutable and is never otherwise written is
+    # kept (it IS a write); but calls like `logger.update`-style false friends do not exist in MUTATORS.
+
+    # ---- pass 3: reads inside function bodies
+    for f, tree in trees.items():
+        mod = mods[f]
+        own_mod, own_name, ext = imports[mod]
+        visible: dict[str, str] = {}
+        for k, c in cells.items():
+            if c.module == mod and "." not in c.name:
+                visible[c.name] = k
+        for alias, (m2, n2) in own_name.items():
+            k = f"{m2}:{n2}"
+            if k in cells:
+                visible[alias] = k
+
+        def resolve(expr, is_local):
+            """cell key for an expression naming a cell, or None."""
+            if isinstance(expr, ast.Name):
+                return None if is_local(expr.id) else visible.get(expr.id)
+            if isinstance(expr, ast.Attribute):
+                root, parts = _chain(expr)
+                if root is None or "()" in parts or "[]" in parts:
+                    return None
+                if not is_local(root):
+                    om = own_module_of(mod, root, parts)
+                    if om is not None:
+                        m2, rest = om
+                        if len(rest) == 1 and f"{m2}:{rest[0]}" in cells:
+                            return f"{m2}:{rest[0]}"
+                        if len(rest) == 2 and f"{m2}:{rest[0]}.{rest[1]}" in cells:
+                            return f"{m2}:{rest[0]}.{rest[1]}"
+                        return None
+                v = expr.value
+                if isinstance(v, ast.Name):
+                    # Class.NAME / cls.NAME / self.NAME for class-level cells (any class of any module with that attr)
+                    cands = [k for k, c in cells.items()
+                             if c.kind in ("classMutable", "classAttrAssigned") and c.name.split(".")[-1] == expr.attr]
+                    if v.id in ("cls", "self") or v.id in any_class:
+                        if cands:
+                            same = [k for k in cands if cells[k].module == mod]
+                            return (same or cands)[0]
+            return None
+
+        class R(ast.NodeVisitor):
+            def __init__(self):
+                self.stack = []
+                self.scopes = []
+
+            def visit_FunctionDef(self, node):
+                if node.name == "new_registry":
+                    return
+                self.stack.append(node.name)
+                self.scopes.append(_local_names(node))
+                for st in node.body:
+                    self.visit(st)
+                self.scopes.pop()
+                self.stack.pop()
+
+            visit_AsyncFunctionDef = visit_FunctionDef
+
+            def visit_Lambda(self, node):
+                self.stack.append("<lambda>")
+                a = node.args
+                self.scopes.append(({x.arg for x in a.posonlyargs + a.args + a.kwonlyargs}, set()))
+                self.generic_visit(node)
+                self.scopes.pop()
                 self.stack.pop()
 
             def where(self):
                 return f"{mod}.{'.'.join(self.stack)}"
 
-            def visit_Call(self, node):
-                if self.stack:
-                    fn = node.func
-                    if isinstance(fn, ast.Attribute) and fn.attr in MUTATORS:
-                        k = resolve(fn.value)
-                        if k:
-                            cells[k].writers.append(self.where())
-                    if isinstance(fn, ast.Name) and fn.id in reg_funcs.get(mod, {}):
-                        cells[reg_funcs[mod][fn.id]].writers.append(self.where())
-                self.generic_visit(node)
-
-            def _target(self, t):
-                if not self.stack:
-                    return
-                if isinstance(t, ast.Subscript):
-                    k = resolve(t.value)
-                    if k:
-                        cells[k].writers.append(self.where())
-                elif isinstance(t, ast.Attribute) and isinstance(t.value, ast.Name):
-                    v = t.value.id
-                    if v == "cls" or any(v in class_names[m] for m in class_names):
-                        owner = v if v != "cls" else "<cls>"
-                        k = f"{mod}:{owner}.{t.attr}"
-                        if k not in cells:
-                            cells[k] = Cell(mod, f"{owner}.{t.attr}", "classAttrAssigned", t.lineno)
-                        cells[k].writers.append(self.where())
-                elif isinstance(t, ast.Name) and self._globals and t.id in self._globals:
-                    k = visible.get(t.id) or f"{mod}:{t.id}"
-                    if k not in cells:
-                        cells[k] = Cell(mod, t.id, "globalRebound", t.lineno)
-                    cells[k].writers.append(self.where())
-                elif isinstance(t, (ast.Tuple, ast.List)):
-                    for e in t.elts:
-                        self._target(e)
-
-            _globals: set = set()
-
-            def visit_Global(self, node):
-                self._globals = set(self._globals) | set(node.names)
-
-            def visit_Assign(self, node):
-                for t in node.targets:
-                    self._target(t)
-                self.generic_visit(node)
-
-            def visit_AugAssign(self, node):
-                self._target(node.target)
-                if self.stack and isinstance(node.target, ast.Name):
-                    k = visible.get(node.target.id)
-                    if k and node.target.id in self._globals:
-                        cells[k].writers.append(self.where())
-                self.generic_visit(node)
-
-            def visit_Delete(self, node):
-                for t in node.targets:
-                    self._target(t)
-                self.generic_visit(node)
+            def is_local(self, name):
+                return any(name in loc for loc, _ in self.scopes)
 
             def visit_Name(self, node):
                 if self.stack and isinstance(node.ctx, ast.Load):
-                    k = visible.get(node.id)
+                    k = resolve(node, self.is_local)
                     if k:
                         cells[k].readers.append(self.where())
 
+            def visit_AugAssign(self, node):
+                # `X += 1` reads X as well
+                if self.stack and isinstance(node.target, ast.Name):
+                    k = resolve(node.target, self.is_local)
+                    if k:
+                        cells[k].readers.append(self.where())
+                self.generic_visit(node)
+
             def visit_Attribute(self, node):
                 if self.stack and isinstance(node.ctx, ast.Load):
-                    k = resolve(node)
+                    k = resolve(node, self.is_local)
                     if k:
                         cells[k].readers.append(self.where())
                         return
                 self.generic_visit(node)
 
-        V().visit(tree)
+        R().visit(tree)
 
     # class attributes assigned at run time are read wherever that attribute name is loaded
     for k, c in cells.items():
-        if c.kind in ("classAttrAssigned", "globalRebound"):
+        if c.kind in ("classAttrAssigned",):
             attr = c.name.split(".")[-1]
             for f, tree in trees.items():
                 for node in ast.walk(tree):
                     if isinstance(node, ast.Attribute) and node.attr == attr and isinstance(node.ctx, ast.Load):
-                        c.readers.append(modname(src_root, f))
+                        c.readers.append(mods[f])
                         break
     out = sorted(cells.values(), key=lambda c: c.key)
-    return out, attr_defaults
+    switches.sort(key=lambda s: (s["module"], s["line"], s["callee"]))
+    return out, attr_defaults, switches
+
+
+def _b(x):
+    return "true" if x else "false"
+
+
+def _s(x):
+    return '"' + x.replace("\\", "\\\\").replace('"', '\\"') + '"'
 
 
 def to_lean(cells, attr_defaults) -> str:
-    def b(x):
-        return "true" if x else "false"
-
-    def s(x):
-        return '"' + x.replace("\\", "\\\\").replace('"', '\\"') + '"'
-
     lines = [
         "import PsdVerif.Model.Globals",
         "namespace PsdVerif.Generated.Globals",
         "open PsdVerif.Globals",
-        "/-- module-level / class-level mutable objects of src/psd_tools with their run-time writers and readers -/",
+        "/-- module-level / class-level state of src/psd_tools with its run-time writers and readers -/",
         "def cells : List Cell := [",
     ]
     rows = []
     for c in cells:
         rows.append(
-            f"  {{ name := {s(c.key)}, kind := .{c.kind}, writtenAtRuntime := {b(bool(c.writers))}, "
-            f"readObservably := {b(bool(c.readers))} }}"
+            f"  {{ name := {_s(c.key)}, kind := .{c.kind}, writtenAtRuntime := {_b(bool(c.writers))}, "
+            f"readObservably := {_b(bool(c.readers))} }}"
         )
     lines.append(",\n".join(rows))
     lines.append("]")
     lines.append("/-- `attr.ib(default=<mutable>)` occurrences (a default object shared by all instances) -/")
-    lines.append("def sharedDefaults : List String := [" + ", ".join(s(f"{d['module']}:{d['line']}") for d in attr_defaults) + "]")
+    lines.append("def sharedDefaults : List String := [" + ", ".join(_s(f"{d['module']}:{d['line']}") for d in attr_defaults) + "]")
     lines.append("end PsdVerif.Generated.Globals")
+    return "\n".join(lines) + "\n"
+
+
+def switches_to_lean(switches) -> str:
+    lines = [
+        "import PsdVerif.Model.Switches",
+        "namespace PsdVerif.Generated.Switches",
+        "open PsdVerif.Switches",
+        "/-- every place where src/psd_tools flips process-wide state that belongs to another module "
+        "(stdlib, attrs, numpy, PIL ...) -/",
+        "def sites : List Site := [",
+    ]
+    rows = []
+    for s in switches:
+        rows.append(
+            f"  {{ site := {_s('%s:%d' % (s['module'], s['line']))}, callee := {_s(s['callee'])}, "
+            f"atRuntime := {_b(s['atRuntime'])}, restored := {_b(s['scoped'])} }}"
+        )
+    lines.append(",\n".join(rows))
+    lines.append("]")
+    lines.append("end PsdVerif.Generated.Switches")
     return "\n".join(lines) + "\n"
 
 
 if __name__ == "__main__":
     import sys
-    cs, ds = extract(Path(sys.argv[1]))
+    cs, ds, sw = extract_all(Path(sys.argv[1]))
     for c in cs:
         print(c.key, c.kind, "W:", sorted(set(c.writers))[:3], "R:", len(set(c.readers)))
     print(ds)
+    for s in sw:
+        print("SWITCH", s)
